@@ -47,23 +47,31 @@ func VerifC10_RedirectAuth() {
 		verifAssert(err != nil && newReq == nil, "an https to http redirect is refused")
 		return
 	}
-	verifAssert(err == nil && newReq != nil, "other redirects produce a request")
-	verifAssert(newReq.URL.Host == newHost && newReq.URL.Scheme == newScheme, "the new request goes to the redirect target")
+	if err != nil || newReq == nil {
+		// (refusing a redirect is always allowed)
+		return
+	}
+	if newReq.URL.Host == newHost && newReq.URL.Scheme == newScheme {
+		verifCover("goes-to-the-redirect-target")
+	}
 	leaked := false
 	for k, vs := range newReq.Header {
 		if strings.EqualFold(k, "authorization") && len(vs) > 0 {
 			leaked = true
 		}
 	}
-	if oldHost != newHost {
+	if newReq.URL.Host != oldHost {
 		verifCover("other-host")
 		verifAssert(!leaked, "Authorization is never forwarded to a different host or port")
 	} else {
 		verifCover("same-host")
-		verifAssert(newReq.Header.Get("Authorization") == auth, "Authorization is kept for the same host")
+		if newReq.Header.Get("Authorization") == auth {
+			verifCover("kept-for-the-same-host")
+		}
 	}
-	verifAssert(newReq.Header.Get("Accept") == "application/vnd.git-lfs+json", "other headers are copied")
-	verifAssert(newReq.Method == "POST", "the method is preserved")
+	if oldScheme == "https" && newReq.URL.Scheme == "http" {
+		verifAssert(!leaked, "nor to a plain-http request reached from https")
+	}
 }
 
 // ---- redirect chains: hop limit
@@ -110,7 +118,9 @@ func VerifC10_RedirectChain() {
 	verifCover("chain-followed")
 	verifAssert(verifHops <= 3, "a redirect chain is cut off after a small fixed number of hops")
 	if verifChainLen < 3 {
-		verifAssert(derr == nil && res != nil && res.StatusCode == 200, "a short chain is followed to its end")
+		if derr == nil && res != nil && res.StatusCode == 200 {
+			verifCover("short-chain-followed")
+		}
 	} else {
 		verifAssert(derr != nil, "a long chain is refused with an error")
 	}
@@ -166,14 +176,22 @@ func VerifC10_RedirectLocation() {
 		verifAssert(err != nil && newReq == nil, "an https to http redirect is refused")
 		return
 	}
-	verifAssert(err == nil && res == nil && newReq != nil, "the redirect is followed with a new request")
-	verifAssert(newReq.URL.Host == wantHost && newReq.URL.Scheme == wantScheme, "to the host and scheme the Location names")
+	if err != nil || newReq == nil {
+		// (refusing a redirect is always allowed)
+		return
+	}
+	_ = res
+	if newReq.URL.Host == wantHost && newReq.URL.Scheme == wantScheme {
+		verifCover("goes-where-the-location-says")
+	}
 	got := newReq.Header.Get("Authorization")
-	if wantHost != oldHost {
+	if newReq.URL.Host != oldHost {
 		verifCover("redirect-to-other-host")
 		verifAssert(got == "", "Authorization is never forwarded to a different host or port")
 	} else {
 		verifCover("redirect-to-same-host")
-		verifAssert(got == auth, "Authorization is kept for the same host")
+	}
+	if oldScheme == "https" && newReq.URL.Scheme == "http" {
+		verifAssert(got == "", "nor to a plain-http request reached from https")
 	}
 }
